@@ -399,7 +399,8 @@ def push_only(U, rep):
   f = U.func(SC + '.resolve')
   sysd = symsys.system('11', (-1, 0))
   cb = symsys.contact(([0], [1]))
-  imp = nested_fn(I, SC, 'resolve', 'impulse', {'sys': sysd})
+  I.contracts[('brax.contact', 'get')] = lambda s, x: cb
+  imp, _ = avn.nested_fn_auto(I, SC, 'resolve', 'impulse', {'sys': sysd, 'state': symsys.state_maxcoord(2)})
   args = [cb, np.array([[0, 1]]), T('xi', (1, 2)), M('xdi', (1, 2)), symarr('Ii', (1, 2, 3, 3)), symarr('im', (1, 2))]
   force, is_c = I.apply(imp, args, {})
   zero_k = Rat.lift(0).key()
@@ -435,10 +436,11 @@ def push_only(U, rep):
   f = U.func(PC + '.resolve_position')
   st = symsys.state_maxcoord(2)
   xprev = T('xp', (2,))
-  inv_mass, inv_inertia = symarr('im', (2,)), symarr('Ii', (2, 3, 3))
-  tr = nested_fn(I, PC, 'resolve_position', 'translate',
-                 {'sys': sysd, 'state': st, 'x_i_prev': xprev, 'inv_mass': inv_mass, 'inv_inertia': inv_inertia})
+  I.contracts[('brax.com', 'inv_inertia')] = lambda s, x: symarr('Ii', (2, 3, 3))
+  tr, _ = avn.nested_fn_auto(I, PC, 'resolve_position', 'translate', {'sys': sysd, 'state': st, 'x_i_prev': xprev, 'contact': cb})
   dp_p, dp_c, lam = I.apply(tr, [cb], {})
+  k_ = 1 - sysd.f['spring_mass_scale']
+  inv_mass = avn.elemwise(lambda a: 1 / (Rat.lift(a) ** k_), sysd.f['link'].f['inertia'].f['mass'])
   # switch the static-friction branch off: it is the only `where` in the kernel
   atoms = {nm for l in I.leaves((dp_p, dp_c)) for x in asarr(l).ravel() for mono in Rat.lift(x).n.t for nm, _ in mono
            if avn._is_bool_name(nm)}
@@ -486,7 +488,18 @@ def _single_atom(r):
   return None
 
 
+def world_immovable(U, rep, tier):
+  """R6.4 (push-out magnitude): against the world the correction is that of an immovable body -- the world
+  side has zero inverse mass AND zero inverse inertia, so the impulse / lambda of a ground contact is a
+  function of the contacting body alone (otherwise resting bodies sink or bounce depending on unrelated links)."""
+  from braxlint.props import c10
+  c10.no_alias(U, rep, tier, rule='R6.4', key='%s: the world side of a contact is immovable',
+               message='the response to a ground contact depends on a link that is not in contact (the world side does '
+               'not have zero inverse mass / inertia): push-out too weak or too strong, resting bodies sink')
+
+
 def run(U, rep, tier):
+  world_immovable(U, rep, tier)
   contacts(U, rep, tier)
   spring_limits(U, rep, tier)
   positional_limits(U, rep, tier)
